@@ -17,10 +17,12 @@ package main
 
 import (
 	"encoding/hex"
+	"flag"
 	"fmt"
 	"math"
 	"math/big"
 	"os"
+	"path/filepath"
 	"reflect"
 	"strconv"
 	"strings"
@@ -31,10 +33,33 @@ import (
 	"github.com/kaptinlin/gozod/pkg/coerce"
 
 	"verifharness/hx"
+	"verifharness/numgen"
+)
+
+// -gen DIR -repo TREE: run the translator (harness/numgen) over TREE and write DIR/CoerceDispatch.lean
+// (only when its content changes), then exit.
+var (
+	genDir  = flag.String("gen", "", "translator mode: write the dispatch table into this directory and exit")
+	genRepo = flag.String("repo", "/repo", "library working tree read by the translator")
 )
 
 func main() {
-	if err := runC17(hx.ParseFlags()); err != nil {
+	cfg := hx.ParseFlags()
+	if *genDir != "" {
+		src, err := numgen.GenCoerce(*genRepo)
+		if err != nil {
+			fmt.Fprintln(os.Stderr, "translator:", err)
+			os.Exit(4)
+		}
+		changed, err := numgen.WriteIfChanged(filepath.Join(*genDir, "CoerceDispatch.lean"), src)
+		if err != nil {
+			fmt.Fprintln(os.Stderr, "translator:", err)
+			os.Exit(4)
+		}
+		fmt.Println("changed:", changed)
+		return
+	}
+	if err := runC17(cfg); err != nil {
 		fmt.Fprintln(os.Stderr, "harness error:", err)
 		os.Exit(3)
 	}
@@ -1051,11 +1076,11 @@ func bigGrid() []src {
 	}
 	maxF := new(big.Int).Sub(pow(1024), pow(970)) // MaxFloat64
 	add(maxF)
-	add(new(big.Int).Add(maxF, pow(969)))                                        // the tie that rounds to 2^1024
-	add(new(big.Int).Sub(new(big.Int).Add(maxF, pow(969)), big.NewInt(1)))       // just below it
-	add(new(big.Int).Add(pow(200), pow(147)))                                    // tie at 53 bits → even
-	add(new(big.Int).Add(new(big.Int).Add(pow(200), pow(148)), pow(147)))        // tie → up
-	add(new(big.Int).Add(new(big.Int).Add(pow(200), pow(147)), big.NewInt(1)))   // above the tie
+	add(new(big.Int).Add(maxF, pow(969)))                                      // the tie that rounds to 2^1024
+	add(new(big.Int).Sub(new(big.Int).Add(maxF, pow(969)), big.NewInt(1)))     // just below it
+	add(new(big.Int).Add(pow(200), pow(147)))                                  // tie at 53 bits → even
+	add(new(big.Int).Add(new(big.Int).Add(pow(200), pow(148)), pow(147)))      // tie → up
+	add(new(big.Int).Add(new(big.Int).Add(pow(200), pow(147)), big.NewInt(1))) // above the tie
 	add(new(big.Int).Exp(big.NewInt(10), big.NewInt(400), nil))
 	return out
 }
